@@ -491,6 +491,27 @@ static int in_root(const char *abs, const char **rel)
   return 0;
 }
 
+/* A path outside the sandbox root but beside it (reached with "..") is shown
+ * relative to the root's parent so that logs do not depend on where the
+ * sandbox happens to live. */
+static const char *display_outside(const char *abs, char *tmp, size_t cap)
+{
+  char parent[4096];
+  snprintf(parent, sizeof parent, "%s", P.root);
+  char *slash = strrchr(parent, '/');
+  if (slash && slash != parent)
+    {
+      *slash = 0;
+      size_t n = strlen(parent);
+      if (!strncmp(abs, parent, n) && (abs[n] == '/' || abs[n] == 0))
+	{
+	  snprintf(tmp, cap, "<..>%s", abs + n);
+	  return tmp;
+	}
+    }
+  return abs;
+}
+
 static int is_tmpf_path(const char *abs)
 {
   return !strncmp(abs, "/tmp/tmpf", 9) && strlen(abs) == 15;
@@ -893,7 +914,12 @@ static void path_call(pid_t pid, struct sysctx *c, const char *name, int dirfd, 
   const char *rel;
   if (in_root(abs, &rel)) { add_mutation(name, rel, "", res); logev("%s %s -> %ld", name, rel, res); }
   else if (is_tmpf_path(abs)) { logev("%s <tmpfile> -> %ld", name, res); }
-  else { add_mutation(name, abs, "outside", res); logev("%s %s -> %ld", name, abs, res); }
+  else
+    {
+      char tmp[4200];
+      const char *shown = display_outside(abs, tmp, sizeof tmp);
+      add_mutation(name, shown, "outside", res); logev("%s %s -> %ld", name, shown, res);
+    }
 }
 
 static void handle_exit(pid_t pid, struct sysctx *c)
@@ -943,7 +969,8 @@ static void handle_exit(pid_t pid, struct sysctx *c)
 		  {
 		    canon[k] = 0;
 		    const char *rel2;
-		    if (in_root(canon, &rel2)) shown = rel2; else shown = canon;
+		    if (in_root(canon, &rel2)) shown = rel2;
+		    else { static char tmp2[4200]; shown = display_outside(canon, tmp2, sizeof tmp2); }
 		  }
 	      }
 	    e.kind = K_SANDBOX; snprintf(e.path, sizeof e.path, "%s", shown);
@@ -954,7 +981,12 @@ static void handle_exit(pid_t pid, struct sysctx *c)
 	else
 	  {
 	    e.kind = K_SYS; snprintf(e.path, sizeof e.path, "%s", c->path);
-	    if (wr) { add_mutation("open", c->path, fs, res); logev("open %s %s -> %ld outside", c->path, fs, res >= 0 ? 0 : res); }
+	    if (wr)
+	      {
+		char tmp[4200];
+		const char *shown = display_outside(c->path, tmp, sizeof tmp);
+		add_mutation("open", shown, fs, res); logev("open %s %s -> %ld outside", shown, fs, res >= 0 ? 0 : res);
+	      }
 	  }
 	if (res >= 0 && res < MAXFD) fds[res] = e;
 	break;
